@@ -278,6 +278,8 @@ class Exits:
                 return self.val(obj.args[0], depth + 1)
             if short == 'into_iter' and obj.args:
                 return self.val(obj.args[0], depth + 1)
+            if k in ('Option::is_none', 'Option::is_some', 'Result::is_ok', 'Result::is_err') and obj.args:
+                return '(%s is %s)' % (self.val(obj.args[0], depth + 1), {'is_none': 'None', 'is_some': 'Some', 'is_ok': 'Ok', 'is_err': 'Err'}[short])
             return self.call_desc(obj, depth)
         return self.rvalue(self.named(obj.rhs, obj.extra), depth + 1)
 
@@ -376,6 +378,10 @@ class Exits:
             ex = Exits(self.prog, tgt, cap_env=self.capture_env(rhs)).census()
         finally:
             _CLOSURE_STACK.pop()
+        # a predicate written as a two-armed match (`matches!(x, P)`) is the same value as the test itself
+        if len(ex) == 2 and {e['label'] for e in ex} == {'true', 'false'} and all(len(e['atoms']) == 1 for e in ex):
+            t = [e for e in ex if e['label'] == 'true'][0]
+            return 'fn{(%s)}' % t['atoms'][0]
         parts = []
         for e in ex:
             cond = ' & '.join(e['atoms'])
@@ -435,6 +441,15 @@ class Exits:
                         op = _TRAIT_CMP[mt.group(1)]
                         op = op if truth else _NEG[op]
                         return _rel(op, self.val(obj.args[0]), self.val(obj.args[1]))
+                    # common predicate idioms are normalised so that `x.is_none()` / `matches!(x, None)` / `x == None`-style rewrites
+                    # of the same test give the same atom
+                    short = k.rsplit('::', 1)[-1]
+                    if k in ('Option::is_none', 'Option::is_some', 'Result::is_ok', 'Result::is_err') and obj.args:
+                        pos = {'is_none': 'None', 'is_some': 'Some', 'is_ok': 'Ok', 'is_err': 'Err'}[short]
+                        neg = {'None': 'Some', 'Some': 'None', 'Ok': 'Err', 'Err': 'Ok'}[pos]
+                        return '%s is %s' % (self.val(obj.args[0]), pos if truth else neg)
+                    if short == 'is_empty' and len(obj.args) == 1:
+                        return _rel('Eq' if truth else 'Ne', '0_usize', '%s::len(%s)' % (k.rsplit('::', 1)[0], self.val(obj.args[0])))
                     return '%s == %s' % (self.call_desc(obj), 'true' if truth else 'false')
         who = self.val(discr)
         if truth is not None:
@@ -658,7 +673,7 @@ class Exits:
             if self.sinks is not None and t.kind == 'call' and self.sinks.search(mir.callee_key(t.callee)):
                 out.append((bid, t.span, 'call %s' % self.call_desc(t), 'effect'))
             if t.kind == 'call' and t.dest and t.dest.strip() == '_0':
-                out.append((bid, t.span, self.call_desc(t), t.callee))
+                out.append((bid, t.span, self.def_desc(('call', bid, t), 0) if 'from_residual' not in t.callee else self.call_desc(t), t.callee))
             elif self.effects and t.kind == 'call' and t.args:
                 for a in t.args:
                     m = re.fullmatch(r'(?:move |copy )?(_\d+)', a.strip())
